@@ -48,7 +48,7 @@ RULE = (
     'nearly +-z, in-plane axis whose float norm is 1+ulp) x base x (radius, height) in '
     '{1e-3, 0.2, 1.2, 1e3}^2 x unit; per cylinder 10 start positions x up to 28 directions (incl. parallel to the axis exactly, to 1 ulp and tilted by 1e-13..1e-5) '
     '(rays), 3 deterministic quadrature kinds (quad), and scenes = cylinder x beam x 14 '
-    'detectors x 12 attenuation levels x 32 rigid motions / other-end description (trans); '
+    'detectors x 12 attenuation levels x 33 rigid motions (incl. a translation by 7e4 sample sizes) / other-end description (trans); '
     'all 258 operation histories of length <= 3 over two cylinders sharing Variables (share); '
     'detector banks with points x detectors from 2.5e5 to 1.2e8 around the 2e7 limit (large); '
     'a configuration is non-trivial when the ray set meets the solid / the quadrature is '
@@ -626,7 +626,10 @@ def _run_trans(case, rec):
     wl = sc.array(dims=['wavelength'], values=list(WAVELENGTHS), unit='angstrom')
 
     results = {}
-    for mname, R, t, mtype in MOTIONS:
+    # round 6: besides the fixed motions, a translation by ~7e4 sample sizes - the sample far from the origin of the
+    # coordinates while the detectors stay 7 sizes away from it (distance from the origin says nothing about distance from the sample)
+    motions = [*MOTIONS, ('shift_far', np.eye(3), size * np.array([2e4, -3e4, 6e4]), 'translation')]
+    for mname, R, t, mtype in motions:
         rec.states += 1
         if mtype == 'other_end':
             axis = (-a0).tolist()
@@ -727,7 +730,7 @@ def _run_trans(case, rec):
     # translations carry the quadrature along exactly: equal to rounding
     ref = results.get('identity')
     if ref is not None and np.isfinite(ref).all():
-        for mname, R, t, mtype in MOTIONS:
+        for mname, R, t, mtype in motions:
             if mtype != 'translation' or mname not in results:
                 continue
             cond = 64 * EPS * max(all_mus) * (float(np.linalg.norm(t)) + float(np.linalg.norm(base0)) + 8 * size)
